@@ -302,7 +302,11 @@ func runS1(e *Env, cfg *RunCfg) {
 		if e.Stopped() {
 			return
 		}
-		if s.twin != nil && !out.Failed {
+		if s.twin != nil && (!out.Failed || len(out.Meta.Culprits) == 0) {
+			// a transaction that fails although nothing was planted to make it
+			// fail goes to the twin as well: it must fail there too (a failure
+			// that only the server with a history of planted failures reports
+			// is a trace of those)
 			s.twinStep(i, out)
 			if e.Stopped() {
 				return
@@ -313,9 +317,9 @@ func runS1(e *Env, cfg *RunCfg) {
 
 const epTwin = "twin:6640"
 
-// twinStep sends a transaction that succeeded on the main server to the twin,
-// which has seen every earlier successful transaction and none of the failed
-// ones: "a later transaction behaves as if the failed one had never been
+// twinStep sends a transaction that succeeded on the main server (or failed
+// without having been made to) to the twin, which has seen every earlier
+// successful transaction and none of those planted to fail: "a later transaction behaves as if the failed one had never been
 // submitted" means reply, contents and reference index must agree.
 func (s *s1) twinStep(i int, out *TxnOutcome) {
 	e := s.e
